@@ -111,6 +111,18 @@ pub fn run() -> i32 {
         }
     };
     chk(ro["tcp_refused_after_drop_ms"].as_u64().map_or(false, |ms| ms <= 1000), "TCP connect refused within 1 s after drop", &mut real_fail);
+    let rows = ro["tcp_drop_by_bind_address"].as_array().cloned().unwrap_or_default();
+    chk(rows.iter().filter(|r| r["bound"].as_bool() == Some(true)).count() >= 8, "the server could be bound on the IPv4 bind-address classes (127.0.0.1, 127.0.0.2, 127.1.2.3, 0.0.0.0)", &mut real_fail);
+    for r in &rows {
+        if r["bound"].as_bool() == Some(true) {
+            chk(r["served_ok"].as_bool() == Some(true), &format!("server bound to {} serves a request before the drop", r["bind"]), &mut real_fail);
+            chk(
+                r["first_attempt_500ms_after_drop_refused"].as_bool() == Some(true),
+                &format!("TCP server bound to {}: first connection attempt (to {}) 500 ms after drop is refused", r["bind"], r["connect_to"]),
+                &mut real_fail,
+            );
+        }
+    }
     chk(ro["unix_refused_and_path_removed_after_drop_ms"].as_u64().map_or(false, |ms| ms <= 1000), "UNIX connect refused and path removed within 1 s after drop", &mut real_fail);
     chk(ro["recv_timeout_200ms_returned_none_after_ms"][0].as_bool() == Some(true)
         && ro["recv_timeout_200ms_returned_none_after_ms"][1].as_u64().map_or(false, |ms| (199..=450).contains(&ms)), "recv_timeout(200 ms) returns empty within [~200 ms, 2 x 200 ms + latency]", &mut real_fail);
